@@ -103,6 +103,9 @@ impl MultiPeerBackend for RepSocketBackend {
             let _ = monitor.try_send(SocketEvent::Disconnected(peer_id.clone()));
         }
         self.peers.remove_sync(peer_id);
+        // Also drop the receiving half: a stream that reported an error would otherwise stay
+        // in the fair queue and report that error again on every recv.
+        self.fair_queue_inner.lock().remove(peer_id);
     }
 }
 
